@@ -118,14 +118,14 @@ package transaction
 //@ func (*TxProcessor).handleTx   trusted
 //@   modifies allbut(TxProcessor, types.Transaction, types.txdata, types.Header, []*types.Transaction, params, "bigval")
 //@   let payer = p.am.GetAccount(tx.GasPayer())
-//@   ensures gas <= restGas
-//@   ensures err == nil ==> int(*gp) == old(int(*gp)) - gh("boxSubGas", 0)
-//@   ensures err != nil ==> int(*gp) <= old(int(*gp))
-//@   ensures gh("hx", 0) == types.balanceOf(payer) && gh("hx", 1) == int(*gp) && gh("hx", 2) == old(types.balanceOf(payer)) && gh("hx", 3) == int(gas)
-//@   ensures err == nil ==> int(gasUsed) == int(tx.GasLimit()) - int(gas) + gh("boxSubGas", 0) && gh("boxSubGas", 0) >= 0
-//@   ensures err == nil && tx.Type() != params.BoxTx ==> gh("boxSubGas", 0) == 0
+//@   ensures result0 <= restGas
+//@   ensures result3 == nil ==> int(*gp) == old(int(*gp)) - gh("boxSubGas", 0)
+//@   ensures result3 != nil ==> int(*gp) <= old(int(*gp))
+//@   ensures gh("hx", 0) == types.balanceOf(payer) && gh("hx", 1) == int(*gp) && gh("hx", 2) == old(types.balanceOf(payer)) && gh("hx", 3) == int(result0)
+//@   ensures result3 == nil ==> int(result1) == int(tx.GasLimit()) - int(result0) + gh("boxSubGas", 0) && gh("boxSubGas", 0) >= 0
+//@   ensures result3 == nil && tx.Type() != params.BoxTx ==> gh("boxSubGas", 0) == 0
 //@   ensures val(tx.data.GasPrice) == old(val(tx.data.GasPrice)) && tx.GasPayer() == old(tx.GasPayer())
-//@   ensures types.balanceOf(payer) >= 0 && int(*gp) + int(gas) <= 18446744073709551615
+//@   ensures types.balanceOf(payer) >= 0 && int(*gp) + int(result0) <= 18446744073709551615
 
 //@ func (*TxProcessor).applyTx
 //@   props C05 C06
